@@ -654,8 +654,11 @@ func (a *Agent) handleUDPOpenErr(peerID identity.AgentID, frame *protocol.Frame)
 // handleUDPDatagram processes a UDP_DATAGRAM frame.
 func (a *Agent) handleUDPDatagram(peerID identity.AgentID, frame *protocol.Frame) {
 	// Check if this is for our UDP handler (exit node receiving from mesh)
+	// Stream IDs are per peer connection: only the peer that opened the
+	// association may address it. The same numeric ID arriving from another
+	// peer belongs to a relayed association (or to nothing).
 	if a.udpHandler != nil {
-		if assoc := a.udpHandler.GetAssociation(frame.StreamID); assoc != nil {
+		if assoc := a.udpHandler.GetAssociation(frame.StreamID); assoc != nil && assoc.PeerID == peerID {
 			datagram, err := protocol.DecodeUDPDatagram(frame.Payload)
 			if err != nil {
 				return
@@ -745,7 +748,9 @@ func (a *Agent) handleUDPDatagram(peerID identity.AgentID, frame *protocol.Frame
 func (a *Agent) handleUDPClose(peerID identity.AgentID, frame *protocol.Frame) {
 	// Check if this is for our UDP handler (exit node)
 	if a.udpHandler != nil {
-		a.udpHandler.HandleUDPClose(peerID, frame.StreamID)
+		if assoc := a.udpHandler.GetAssociation(frame.StreamID); assoc != nil && assoc.PeerID == peerID {
+			a.udpHandler.HandleUDPClose(peerID, frame.StreamID)
+		}
 	}
 
 	// Check if this is a relay - PopMatchingPeer atomically looks up,
